@@ -76,6 +76,7 @@ class PathCtx:
             self._add(ax)
         for ax in getattr(run, "lib_axioms_extra", []):
             self._add(ax)
+        self.n_lib = len(self.pc)
 
     # ---- path condition
     def _drain(self):
@@ -275,17 +276,17 @@ class PathCtx:
             t = z3.BoolVal(False)
         else:
             t = tb(f)
-        if f is False:
-            # constant False: decided by reachability of the path (quantifier-free part), no need to run the provers
+        path_facts_qf = not _has_quantifier(self.pc[self.n_lib:])
+        if f is False and path_facts_qf:
+            # constant False on a path whose own facts are quantifier free (the only quantified formulas are the library
+            # axioms / lemmas): it fails iff the path is reachable, decided on the quantifier-free part
             self.qf.set("timeout", 2000)
             quick = self.qf.check()
             self.qf.set("timeout", Z3_QUICK_MS)
             verdict, backend, detail = ("refuted", "z3", {"reachable": True}) if quick == z3.sat else self.run.prove(self, t)
         else:
             verdict, backend, detail = self.run.prove(self, t)
-        if f is False and verdict == "unknown":
-            # the obligation is the constant False: it fails iff the path is reachable; the quantifier-free part of the
-            # path condition being satisfiable is taken as reachable (the quantified part are library axioms / lemmas)
+        if f is False and verdict == "unknown" and path_facts_qf:
             self.qf.set("timeout", 2000)
             if self.qf.check() == z3.sat:
                 verdict = "refuted"
